@@ -111,6 +111,20 @@ def judge(case, res):
         if res["fit"] != want:
             bad.append(("ga:wrong", "ga_evaluator(%r) = %s, documented %s" % (v, res["fit"], want)))
         return bad
+    if kind in ("tdist", "tfixed"):
+        # distinct: time invariant, one value per program, values = order of first appearance; fixed: 0
+        ids = case["ids"]
+        got = res["fit"]
+        if kind == "tfixed":
+            want = [hx(0.0)] * len(ids)
+        else:
+            first = {}
+            for i in ids:
+                first.setdefault(i, len(first))
+            want = [hx(float(first[i])) for i in ids]
+        if got != want:
+            bad.append((kind + ":wrong", "test_evaluator(%s) on programs %s = %s, documented %s" % (kind, ids, got, want)))
+        return bad
     if kind == "con":
         v, p = unhx(case["value"]), unhx(case["penalty"])
         want = [hx(-p)] + ([hx(v)] if math.isfinite(v) else [])
@@ -421,6 +435,10 @@ def fixed_cases():
         out.append({"kind": "ga", "value": hx(v)})
         for p in (0.0, 2.0, -1.0, 1e300):
             out.append({"kind": "con", "value": hx(v), "penalty": hx(p)})
+    out.append({"kind": "tfixed", "ids": [4]})
+    out.append({"kind": "tdist", "ids": [7]})
+    out.append({"kind": "tdist", "ids": [5, 3, 5, 1, 3, 3, 9, 1, 5]})
+    out.append({"kind": "tdist", "ids": list(range(40)) + list(range(39, -1, -1))})
     out.append({"kind": "binary", "classes": 2, "prog": "X",
                 "rows": [[D(1.0), D(0.0), "i:1", 0], [D(-1.0), D(0.0), "i:0", 4], [D(0.0), D(0.0), "i:1", 2 ** 64 - 1], ["v", D(0.0), "i:0", 9]]})
     for k in CLS_KINDS:
@@ -440,6 +458,8 @@ def harness_line(c):
         return "ga " + c["value"]
     if c["kind"] == "con":
         return "con %s %s" % (c["penalty"], c["value"])
+    if c["kind"] in ("tdist", "tfixed"):
+        return "%s %s" % (c["kind"], " ".join(str(i) for i in c["ids"]))
     return "%s %d %s %d %s" % (c["kind"], c["classes"], c["prog"], len(c["rows"]),
                                " ".join("%s %s %s %d" % tuple(r) for r in c["rows"]))
 
@@ -451,7 +471,7 @@ def parse_harness(line):
     for w in line.split():
         k, _, v = w.partition("=")
         if k == "fit":
-            res["fit"] = [x for x in v.split(",") if x]
+            res["fit"] = [x for x in v.replace("|", ",").split(",") if x]
         elif k == "outs":
             res["outs"] = v.split(",") if v else []
         elif k == "diff":
@@ -469,7 +489,7 @@ def parse_harness(line):
 
 
 def model_line(c, res):
-    if c["kind"] in ("ga", "con"):
+    if c["kind"] in ("ga", "con", "tdist", "tfixed"):
         return harness_line(c)
     toks = []
     for i, r in enumerate(c["rows"]):
@@ -483,7 +503,7 @@ def model_line(c, res):
 
 
 def nontrivial(c, res):
-    if c["kind"] in ("ga", "con"):
+    if c["kind"] in ("ga", "con", "tdist", "tfixed"):
         return True
     n = len(c["rows"])
     if n == 1:
@@ -583,6 +603,8 @@ def run(ck):
             cases.append(gen_case_err(rng, ck.thorough))
         for _ in range(ncls):
             cases.append(gen_case_cls(rng, ck.thorough))
+        for _ in range(2000 if ck.thorough else 60):
+            cases.append({"kind": "tdist", "ids": [rng.randint(0, 12) for _ in range(rng.randint(1, 30))]})
         # permutations of one dataset: order sensitivity of the running mean is reported
         perm_groups = []
         for g in range(200 if ck.thorough else 30):
@@ -637,6 +659,8 @@ def run(ck):
             impl_canon += " tags=" + ",".join("%d:%s" % t for t in r["tags"])
         if c["kind"] in ("ga", "con"):
             impl_canon = "fit=%s" % ",".join(r["fit"])
+        if c["kind"] in ("tdist", "tfixed"):
+            impl_canon = "fit=%s" % "|".join(r["fit"])
         if k < 2 or k % (len(cases) // 4 + 1) == 0:
             ck.sample({"case": harness_line(c)[:300], "impl": ho[:300], "model": mo[:300]})
         verdict = judge(c, r)
